@@ -120,10 +120,16 @@ func vfbStd(c map[string]any, rec map[string]any) {
 	})
 	rec["init"] = ini
 
-	psi := map[string]any{"kind": "none", "used": 0, "panic": ""}
+	psi := map[string]any{"kind": "none", "used": 0, "outlen": 0, "panic": ""}
 	psi["panic"] = vfbGuard(func() {
 		r := Psi_M(StandardCodeFormat(append([]byte{}, blob...)), pc, types.Gas(gas), Argument(arg), nil, HostCallArgs{})
 		psi["kind"] = vfbPsiKind(r.ReasonOrBytes)
+		switch x := r.ReasonOrBytes.(type) {
+		case []byte:
+			psi["outlen"] = vfbClamp(int64(len(x)))
+		case types.ByteSequence:
+			psi["outlen"] = vfbClamp(int64(len(x)))
+		}
 		psi["used"] = vfbClamp(int64(r.Gas))
 	})
 	rec["psi"] = psi
@@ -279,7 +285,7 @@ func TestVerifBlob(t *testing.T) {
 	}
 	newRec := func(i int) map[string]any {
 		c := cases[i]
-		return map[string]any{"id": i, "tag": c["tag"], "kind": c["kind"], "blob": c["blob"], "al": c["al"], "gas": c["gas"], "pc": c["pc"],
+		return map[string]any{"id": i, "tag": c["tag"], "kind": c["kind"], "blob": c["blob"], "al": c["al"], "gas": c["gas"], "pc": c["pc"], "want": vfd.I(c["want"]),
 			"allocK": 0, "hang": false, "mem": false, "died": "", "heapK": 0}
 	}
 	samples := []metrics.Sample{{Name: "/gc/heap/allocs:bytes"}, {Name: "/memory/classes/heap/objects:bytes"}}
@@ -361,7 +367,7 @@ func vfbCPU() time.Duration {
 func vfbFillShape(rec map[string]any) {
 	if vfd.S(rec["kind"]) == "std" {
 		rec["init"] = map[string]any{"ok": false, "panic": ""}
-		rec["psi"] = map[string]any{"kind": "none", "used": 0, "panic": ""}
+		rec["psi"] = map[string]any{"kind": "none", "used": 0, "outlen": 0, "panic": ""}
 	} else {
 		rec["deblob"] = map[string]any{"ok": false, "panic": ""}
 		rec["run"] = map[string]any{"ran": false, "kind": "none", "used": 0, "panic": ""}
